@@ -77,6 +77,8 @@ def check(col, prog, tier, profile, fixture=None):
             bad.append("unsafe fn")
         for ub in b.j.get("unsafe_blocks", []):
             sp = ub["span"]
+            if ub.get("source") == "CompilerGenerated":
+                continue  # desugaring of format_args! etc., not written by anyone
             if sp.get("exp") and sp.get("macro_crate") in ("std", "core"):
                 continue
             bad.append("unsafe block at line %d" % sp["line"])
